@@ -80,7 +80,7 @@ def chk_fwd(case, acc, seed):
         tol = 1e-9 * (1 + np.sum(np.abs(f))) * max(norm, 1e-3)
         kw = dict(shape=shape, shift=shift, offset=offset, unitary=unitary)
         # cold
-        lf._dft2_coords.cache_clear()
+        engine.reset_library_state()     # cold: every library cache cleared
         try:
             cold = lf.dft2(f, alpha, **kw)
         except Exception as e:
